@@ -302,9 +302,11 @@ class Stats(object):
         if len(self.samples) < cap:
             self.samples.append(item)
 
-    def violate(self, v, cap=50):
+    def violate(self, v, cap=3):
         self.inc('violations')
-        if len(self.violations) < cap:
+        k = 'viol:' + v.klass
+        self.inc(k)
+        if self.n[k] <= cap:
             self.violations.append(v)
 
     def merge(self, o):
@@ -317,7 +319,19 @@ class Stats(object):
         for s in o.samples:
             if len(self.samples) < 64:
                 self.samples.append(s)
+        per = {}
+        for v in self.violations:
+            per[v.klass] = per.get(v.klass, 0) + 1
         for v in o.violations:
-            if len(self.violations) < 200:
+            if per.get(v.klass, 0) < 12:
+                per[v.klass] = per.get(v.klass, 0) + 1
                 self.violations.append(v)
         return self
+
+
+def finish(cov, st):
+    """engine epilogue: record how often each violation class occurred"""
+    vc = {k[5:]: v for k, v in st.n.items() if k.startswith('viol:')}
+    if vc:
+        cov['violation_classes'] = vc
+    return cov, st.violations
